@@ -334,4 +334,46 @@ theorem assemble_rowsum (o : ColOpts) (bt : Nat) (chunks : List (List Cell)) (of
   | nil => rfl
   | cons ch rest ih => simp [assemble, ih]
 
+
+/-! ### fixed-width char -/
+
+def CharOk (w : Nat) (cells : List Cell) : Prop :=
+  ∀ it, some it ∈ cells → it.length ≤ w ∧ (0 : UInt8) ∉ it
+
+theorem takeWhile_nonzero_pad (it : Bytes) (k : Nat) (h : (0 : UInt8) ∉ it) :
+    (it ++ zeros k).takeWhile (· != 0) = it := by
+  induction it with
+  | nil => cases k <;> simp [zeros, List.replicate_succ]
+  | cons x xs ih =>
+    have hx : x ≠ 0 := fun e => h (by simp [e])
+    have hxs : (0 : UInt8) ∉ xs := fun e => h (by simp [e])
+    simp [hx, ih hxs]
+
+theorem plain_char_roundtrip (w target : Nat) (cells : List Cell) (h : CharOk w cells) (rest : Bytes) :
+    decodePlain (.char w) cells.length
+      ((cells.foldl Plain.append { kind := .char w, target }).finish ++ rest)
+      = cells.map (storedItem (.char w)) := by
+  simp only [Plain.finish, Plain.foldl_kind, Plain.foldl_data, decodePlain, List.nil_append]
+  have e1 : cells.flatMap (cellBytes (.char w)) = (cells.map (cellBytes (.char w))).flatten := by
+    rw [List.flatMap_def]
+  rw [e1]
+  have hl : (cells.map (cellBytes (.char w))).length = cells.length := by simp
+  rw [← hl, chunksN_flatten w]
+  · rw [List.map_map]
+    apply List.map_congr_left
+    intro c hc
+    cases c with
+    | none => simp [cellBytes, storedItem, defaultItem, zeros]
+    | some it =>
+      simp only [Function.comp, cellBytes, storedItem]
+      exact takeWhile_nonzero_pad it _ (h it hc).2
+  · intro x hx
+    simp only [List.mem_map] at hx
+    obtain ⟨c, hc, rfl⟩ := hx
+    cases c with
+    | none => simp [cellBytes, zeros]
+    | some it =>
+      have := (h it hc).1
+      simp [cellBytes, zeros]; omega
+
 end RlModel
